@@ -2,6 +2,7 @@
 use binary_stream::futures::{Decodable, Encodable};
 use futures::{pin_mut, StreamExt};
 use sos_backend::BackendEventLog;
+use sos_core::commit::{CommitHash, CommitProof};
 use sos_core::events::{
     patch::{AccountDiff, CheckedPatch, DeviceDiff, FolderDiff, Patch},
     AccountEvent, DeviceEvent, EventLog, EventLogType, EventRecord,
@@ -258,6 +259,31 @@ where
         + Sync
         + 'static,
 {
+    // Rewinding discards the events after the commit; they must all
+    // be part of the patch otherwise events that were accepted from
+    // another device after the sender computed its merge would be lost
+    if let Some(commit) = &req.commit {
+        let (discarded, head) =
+            rewind_preview::<_, E>(&req.log_type, storage, commit).await?;
+        let keeps_all = discarded.iter().all(|record| {
+            req.patch.iter().any(|r| r.commit() == record.commit())
+        });
+        if !keeps_all {
+            tracing::warn!(
+                num_records = ?discarded.len(),
+                "events_patch::rewind_would_drop_events");
+            return Ok((
+                PatchResponse {
+                    checked_patch: CheckedPatch::Conflict {
+                        head,
+                        contains: None,
+                    },
+                },
+                MergeOutcome::default(),
+            ));
+        }
+    }
+
     let (checked_patch, outcome, records) = match &req.log_type {
         EventLogType::Identity => {
             let patch = Patch::<WriteEvent>::new(req.patch);
@@ -392,6 +418,67 @@ where
     }
 
     Ok((PatchResponse { checked_patch }, outcome))
+}
+
+/// Records a rewind to the commit would discard and the current head.
+async fn rewind_preview<S, E>(
+    log_type: &EventLogType,
+    storage: &S,
+    commit: &CommitHash,
+) -> std::result::Result<(Vec<EventRecord>, CommitProof), E>
+where
+    S: SyncStorage,
+    E: std::error::Error
+        + std::fmt::Debug
+        + From<<S as StorageEventLogs>::Error>
+        + From<sos_backend::Error>
+        + Send
+        + Sync
+        + 'static,
+{
+    Ok(match log_type {
+        EventLogType::Identity => {
+            let log = storage.identity_log().await?;
+            let event_log = log.read().await;
+            (
+                event_log.diff_records(Some(commit)).await?,
+                event_log.tree().head().map_err(sos_backend::Error::from)?,
+            )
+        }
+        EventLogType::Account => {
+            let log = storage.account_log().await?;
+            let event_log = log.read().await;
+            (
+                event_log.diff_records(Some(commit)).await?,
+                event_log.tree().head().map_err(sos_backend::Error::from)?,
+            )
+        }
+        EventLogType::Device => {
+            let log = storage.device_log().await?;
+            let event_log = log.read().await;
+            (
+                event_log.diff_records(Some(commit)).await?,
+                event_log.tree().head().map_err(sos_backend::Error::from)?,
+            )
+        }
+        #[cfg(feature = "files")]
+        EventLogType::Files => {
+            let log = storage.file_log().await?;
+            let event_log = log.read().await;
+            (
+                event_log.diff_records(Some(commit)).await?,
+                event_log.tree().head().map_err(sos_backend::Error::from)?,
+            )
+        }
+        EventLogType::Folder(id) => {
+            let log = storage.folder_log(id).await?;
+            let event_log = log.read().await;
+            (
+                event_log.diff_records(Some(commit)).await?,
+                event_log.tree().head().map_err(sos_backend::Error::from)?,
+            )
+        }
+    })
 }
 
 async fn rollback_rewind<S, E>(
